@@ -241,6 +241,9 @@ func cmdCheck(args []string) int {
 		if len(ct.Unverified) > 0 {
 			trusted["assumed, not proved: "+strings.Join(ct.Unverified, ", ")+" satisfy the interface contract "+shortKey(k)] = true
 		}
+		if ct.Pure && !ct.SpecOnly && ct.Claims != nil && !ct.Claims["frame"] {
+			trusted["assumed: "+shortKey(k)+" is side-effect free (pure; its frame is not among the obligation kinds claimed for it)"] = true
+		}
 		if ct.AssumeChecks {
 			notes["assume-checks in "+shortKey(k)+": past a run-time check of a Go statement (bounds, nil, division, make, type assertion) the checked condition is assumed on the rest of the path"] = true
 		}
